@@ -398,6 +398,8 @@ def c09(tier):
     rep = Reporter("C09", ev)
     model_replay("C09", tier, ev, rep, "MC_Curve.tla", f"MC_Curve_deriv_{tier}.cfg")
     model_replay("C09", tier, ev, rep, "MC_Curve.tla", "MC_Curve_wide_calc_quick.cfg")
+    # degree 1-2 with up to 9 control points: every multiplicity pattern on two interior breaks, both at p + 1 included
+    model_replay("C09", tier, ev, rep, "MC_Curve.tla", "MC_Curve_deriv_disc_quick.cfg")
     # the same curves with plain Python ints for every integral knot, point and weight (values to 1e-9)
     model_replay_cached("C09", tier, ev, rep, "MC_Curve.tla", "MC_Curve_deriv_quick.cfg", "int-knots", {}, stride=2 if tier == "quick" else 1)
     return finish(ev, rep)
